@@ -304,11 +304,17 @@ def run(chk):
     kinds = ["corpus"] * len(corpus) + [k for _, k in cases]
     impl = vlib.run_parallel(exe, lines)
     model = None
-    try:
-        mexe = vlib.build_ocaml_model("C19")
-        model = vlib.run_parallel(mexe, lines)
-    except vlib.BuildError as e:
-        chk.broken.append({"kind": "extract", "name": "Extract_C19", "detail": str(e)[:500]})
+    if chk.coq and not chk.coq.get("extract_ok", False):
+        # the model could not be regenerated from this tree (translator or Coq failure, reported above as a
+        # broken obligation); a model extracted by an earlier run is stale and is not compared
+        chk.broken.append({"kind": "extract", "name": "Extract_C19",
+                           "detail": "model not rebuilt for this tree; correspondence skipped, property oracle still evaluated"})
+    else:
+        try:
+            mexe = vlib.build_ocaml_model("C19")
+            model = vlib.run_parallel(mexe, lines)
+        except vlib.BuildError as e:
+            chk.broken.append({"kind": "extract", "name": "Extract_C19", "detail": str(e)[:500]})
     seen = set()
     results = {"parse": 0, "built": 0, "refused": 0, "crash": 0}
     for i, line in enumerate(lines):
@@ -337,6 +343,40 @@ def run(chk):
         if i % 1499 == 0:
             chk.sample({"input": line[:200], "impl": str(out)[:200], "model": model[i][:200] if model else None})
     chk.extra["result_kinds"] = results
+    if chk.failures:
+        # report the smallest failing input first, minimised further by delta debugging on its bytes
+        chk.failures.sort(key=lambda f: len(f["case"]))
+        first = chk.failures[0]
+        small = shrink_case(exe, first["case"])
+        if small != first["case"]:
+            out = vlib.run_lines(exe, [small])[0]
+            chk.failures.insert(0, {"stream": "oracle-shrunk", "case": small, "shrunk_from": first["case"][:400],
+                                    "what": "; ".join(oracle(small, out))[:600] + " (implementation returned %s)" % str(out)[:200]})
+
+
+def shrink_case(exe, line):
+    """Delta-debug the bytes of every string of the case while the property still fails on the implementation."""
+    toks = line.split(" ")
+
+    def fails(ts):
+        l = " ".join(ts)
+        return bool(oracle(l, vlib.run_lines(exe, [l])[0]))
+
+    for i in range(1, len(toks)):
+        b = unhx(toks[i])
+        if not b or len(b) < 2:
+            continue
+
+        def still(cand, i=i):
+            ts = list(toks)
+            ts[i] = hx(bytes(cand))
+            return fails(ts)
+        toks[i] = hx(bytes(vlib.shrink_list(list(b), still, max_steps=120)))
+        # a part that only matters by its length: make the content uniform
+        b = unhx(toks[i])
+        if b and len(b) > 8 and still([0x61] * len(b)):
+            toks[i] = hx(b"a" * len(b))
+    return " ".join(toks)
 
 
 def replay(path):
